@@ -9,6 +9,21 @@ From Coq Require Import String List Bool Arith Lia.
 From Verif Require Import Cfg.Ebnf Cfg.Translate Emerge.SpecModel Emerge.SpecWf.
 Import ListNotations.
 
+Lemma flat_map_nil_all {A B : Type} (f : A -> list B) (l : list A) :
+  (forall x, In x l -> f x = []) -> flat_map f l = [].
+Proof.
+  induction l as [|x l IH]; intros H; [reflexivity|]. simpl. rewrite (H x (or_introl eq_refl)), IH; [reflexivity|].
+  intros y Hy. apply H. right. exact Hy.
+Qed.
+
+Lemma NoDup_app_intro_single {A : Type} (l : list A) (a : A) : NoDup l -> ~ In a l -> NoDup (l ++ [a]).
+Proof.
+  intros Hl Ha. induction l as [|x l IH]; simpl; [constructor; [intros [] | constructor]|].
+  inversion Hl as [|? ? Hx Hl']; subst. constructor.
+  - intros Hin. apply in_app_or in Hin as [Hin|[Hin|[]]]; [apply Hx; exact Hin | subst; apply Ha; left; reflexivity].
+  - apply IH; [exact Hl' | intros Hin; apply Ha; right; exact Hin].
+Qed.
+
 (* ---- the events the terminal table sees, in reduction order ---- *)
 Inductive tev := TUse (a : string) (lit : bool) | TDef (a : string) (d : string * bool).
 
@@ -166,7 +181,7 @@ Proof.
   intros Hf Hn Hab. induction ts as [|x ts IH]; simpl.
   - unfold nm. rewrite Hn, Hab. reflexivity.
   - destruct (String.eqb (te_name x) a) eqn:E; simpl.
-    + unfold nm. rewrite Hf. reflexivity.
+    + unfold nm. rewrite Hf. apply String.eqb_eq in E. rewrite E, Hab. reflexivity.
     + rewrite IH. reflexivity.
 Qed.
 
@@ -501,3 +516,189 @@ Section Main.
       + exists (TUse a lit). split; [|reflexivity]. apply use_event_iff. exact Hu.
   Qed.
 End Main.
+
+(* ---- which diagnostics the table produces, read off the declaration list ---- *)
+Lemma in_entry_diags a ts d :
+  In d (flat_map (fun e => match te_defs e with
+                           | [] => [NoDefinition (te_name e)]
+                           | [_] => []
+                           | _ => [MultipleDefinitions (te_name e)]
+                           end) ts) ->
+  d = NoDefinition a \/ d = MultipleDefinitions a ->
+  exists e, In e ts /\ te_name e = a /\
+            (d = NoDefinition a -> te_defs e = []) /\ (d = MultipleDefinitions a -> 2 <= length (te_defs e)).
+Proof.
+  intros Hin Hd. apply in_flat_map in Hin as [e [He Hin]]. exists e. split; [exact He|].
+  destruct (te_defs e) as [|x [|y t]] eqn:E; simpl in Hin.
+  - destruct Hin as [<-|[]]. destruct Hd as [Hd|Hd]; inversion Hd; subst; repeat split; try reflexivity; try discriminate.
+  - destruct Hin.
+  - destruct Hin as [<-|[]]. destruct Hd as [Hd|Hd]; inversion Hd; subst; repeat split; try reflexivity; try discriminate; try (intros _; simpl; lia).
+Qed.
+
+Lemma table_diags_entry s a d :
+  d = NoDefinition a \/ d = MultipleDefinitions a ->
+  (In d (table_diags s) <->
+   exists e, In e (s_terms s) /\ te_name e = a /\
+             (d = NoDefinition a -> te_defs e = []) /\ (d = MultipleDefinitions a -> 2 <= length (te_defs e))).
+Proof.
+  intros Hd. unfold table_diags. split.
+  - intros Hin. apply in_app_or in Hin as [Hin|Hin]; [apply (in_entry_diags a _ d Hin Hd)|].
+    exfalso. apply in_app_or in Hin as [Hin|Hin].
+    + apply in_flat_map in Hin as [[[a0 v] r] [_ Hin]].
+      destruct (filter _ _) as [|[[a1 v1] r1] [|y t]]; simpl in Hin; try destruct Hin.
+      destruct (String.eqb a1 a0); [|destruct Hin]. destruct Hin as [<-|[]]. destruct Hd; discriminate.
+    + destruct (existsb _ _); [destruct Hin|]. destruct Hin as [<-|[]]. destruct Hd; discriminate.
+  - intros [e [He [Hn [H0 H2]]]]. apply in_or_app. left. apply in_flat_map. exists e. split; [exact He|].
+    destruct Hd as [->| ->].
+    + rewrite (H0 eq_refl), Hn. left. reflexivity.
+    + specialize (H2 eq_refl). destruct (te_defs e) as [|x [|y t]]; simpl in H2; try lia. rewrite Hn. left. reflexivity.
+Qed.
+
+Lemma final_diags_entry s a d :
+  d = NoDefinition a \/ d = MultipleDefinitions a -> (In d (final_diags s) <-> In d (table_diags s)).
+Proof.
+  intros Hd. unfold final_diags. destruct (table_diags s) as [|x t] eqn:E.
+  - split; [|intros []]. intros Hin. exfalso. apply in_app_or in Hin as [Hin|Hin].
+    + apply in_map_iff in Hin as [v [<- _]]. destruct Hd; discriminate.
+    + apply in_app_or in Hin as [Hin|Hin].
+      * apply in_flat_map in Hin as [A [_ Hin]]. destruct (existsb _ _); [destruct Hin|]. destruct Hin as [<-|[]]. destruct Hd; discriminate.
+      * destruct (levels_overlap _); [|destruct Hin]. destruct Hin as [<-|[]]. destruct Hd; discriminate.
+  - split.
+    + intros Hin. apply in_app_or in Hin as [Hin|Hin]; [|exact Hin].
+      apply in_map_iff in Hin as [v [<- _]]. destruct Hd; discriminate.
+    + intros Hin. apply in_or_app. right. exact Hin.
+Qed.
+
+Section Diagnostics.
+  Variable terminal_names : list (string * string).
+  Variable predefs : list (string * string).
+  Let tbl ds := translate terminal_names predefs ds.
+
+  Definition in_table (ds : list decl) (a : string) : Prop :=
+    (exists d, In (a, Some d) (declared predefs ds)) \/ (exists lit, In (a, lit) (used_terms ds)).
+
+  (* "a token used without a definition": reported for a iff a occurs and the declaration list gives it no definition *)
+  Theorem no_definition_reported_iff ds a :
+    names_distinct predefs ds = true ->
+    (In (NoDefinition a) (final_diags (tbl ds)) <-> in_table ds a /\ defs_of predefs ds a = []).
+  Proof.
+    intros Hn. rewrite (final_diags_entry _ a) by (left; reflexivity). rewrite (table_diags_entry _ a) by (left; reflexivity). split.
+    - intros [e [He [Hname [H0 _]]]]. split.
+      + apply (table_names terminal_names predefs ds a). rewrite <- Hname. apply in_map. exact He.
+      + rewrite <- Hname, <- (entry_carries_the_declarations terminal_names predefs ds e Hn He). apply H0. reflexivity.
+    - intros [Hin Hd]. apply (table_names terminal_names predefs ds a) in Hin. apply in_map_iff in Hin as [e [Hname He]].
+      exists e. repeat split; [exact He | exact Hname | | discriminate].
+      intros _. rewrite (entry_carries_the_declarations terminal_names predefs ds e Hn He), Hname. exact Hd.
+  Qed.
+
+  (* "defined more than once": reported for a iff the declaration list gives a two or more definitions *)
+  Theorem multiple_definitions_reported_iff ds a :
+    names_distinct predefs ds = true ->
+    (In (MultipleDefinitions a) (final_diags (tbl ds)) <-> 2 <= length (defs_of predefs ds a)).
+  Proof.
+    intros Hn. rewrite (final_diags_entry _ a) by (right; reflexivity). rewrite (table_diags_entry _ a) by (right; reflexivity). split.
+    - intros [e [He [Hname [_ H2]]]].
+      rewrite <- Hname, <- (entry_carries_the_declarations terminal_names predefs ds e Hn He). apply H2. reflexivity.
+    - intros H2. pose proof (table_carries_the_declarations terminal_names predefs ds a Hn) as Hd.
+      unfold defs_in in Hd. fold (tbl ds) in Hd. destruct (find (nm a) (s_terms (tbl ds))) as [e|] eqn:Ef.
+      + apply find_some in Ef as [He Hname]. unfold nm in Hname. apply String.eqb_eq in Hname.
+        exists e. repeat split; [exact He | exact Hname | discriminate | ]. intros _. rewrite Hd. exact H2.
+      + rewrite <- Hd in H2. simpl in H2. lia.
+  Qed.
+
+  (* unknown predefined names: the errors recorded are exactly the unknown names written, in source order *)
+  Definition unknown_predefs (ds : list decl) : list string :=
+    flat_map (fun d => match d with
+                       | DToken _ (S (S _)) v => match find (fun e => String.eqb (fst e) v) predefs with Some _ => [] | None => [v] end
+                       | _ => []
+                       end) ds.
+
+  Lemma add_nt_errs s A : s_errs (add_nt s A) = s_errs s.
+  Proof. unfold add_nt. destruct (existsb _ _); reflexivity. Qed.
+  Lemma add_prod_errs s p : s_errs (add_prod s p) = s_errs s.
+  Proof. unfold add_prod. destruct (pmem _ _); reflexivity. Qed.
+  Lemma fold_add_prod_errs ps : forall s, s_errs (fold_left add_prod ps s) = s_errs s.
+  Proof. induction ps as [|p ps IH]; intros s; simpl; [reflexivity|]. rewrite IH. apply add_prod_errs. Qed.
+  Lemma get_name_errs s sg k : s_errs (snd (get_name terminal_names s sg k)) = s_errs s.
+  Proof.
+    unfold get_name. destruct (find _ (s_memo s)) as [e|].
+    - destruct (String.eqb (m_get e k) ""); [|reflexivity]. destruct (synth_name _ _ _ _). reflexivity.
+    - destruct (synth_name _ _ _ _). reflexivity.
+  Qed.
+  Lemma finish_bracket_errs k res : s_errs (snd (finish_bracket terminal_names k res)) = s_errs (snd res).
+  Proof.
+    unfold finish_bracket. destruct res as [sg s1].
+    pose proof (get_name_errs s1 sg k) as H. destruct (get_name terminal_names s1 sg k) as [X s2]. simpl in *.
+    rewrite fold_add_prod_errs, add_nt_errs. exact H.
+  Qed.
+  Lemma tr_errs r : forall s, s_errs (snd (tr terminal_names r s)) = s_errs s.
+  Proof.
+    induction r as [a lit|A|x IHx y IHy|x IHx y IHy|x IHx|x IHx|x IHx|x IHx|x IHx]; intros s; simpl.
+    - destruct lit; reflexivity.
+    - apply add_nt_errs.
+    - specialize (IHx s). destruct (tr terminal_names x s) as [s1 st1]. specialize (IHy st1).
+      destruct (tr terminal_names y st1) as [s2 st2]. simpl in *. congruence.
+    - specialize (IHx s). destruct (tr terminal_names x s) as [s1 st1]. specialize (IHy st1).
+      destruct (tr terminal_names y st1) as [s2 st2]. simpl in *. congruence.
+    - specialize (IHx s). destruct (tr terminal_names x s) as [s1 st1]. simpl in *. exact IHx.
+    - rewrite finish_bracket_errs. apply IHx.
+    - rewrite finish_bracket_errs. apply IHx.
+    - rewrite finish_bracket_errs. apply IHx.
+    - rewrite finish_bracket_errs. apply IHx.
+  Qed.
+  Lemma tr_rule_errs A b s : s_errs (snd (tr_rule terminal_names A b s)) = s_errs s.
+  Proof.
+    unfold tr_rule. destruct b as [r|]; simpl.
+    - pose proof (tr_errs r (add_nt s A)) as H. destruct (tr terminal_names r (add_nt s A)) as [sg s1]. simpl in *.
+      rewrite fold_add_prod_errs, H. apply add_nt_errs.
+    - rewrite add_prod_errs. apply add_nt_errs.
+  Qed.
+  Lemma tr_handles_errs hs : forall s, s_errs (snd (tr_handles terminal_names hs s)) = s_errs s.
+  Proof.
+    induction hs as [|h hs IH]; intros s; simpl; [reflexivity|]. destruct h as [a lit|A b].
+    - specialize (IH (if lit then add_string_terminal s a else add_token_terminal s a)).
+      destruct (tr_handles terminal_names hs _) as [r s2]. simpl in *. rewrite IH. destruct lit; reflexivity.
+    - pose proof (tr_rule_errs A b s) as H. destruct (tr_rule terminal_names A b s) as [ps s1].
+      specialize (IH s1). destruct (tr_handles terminal_names hs s1) as [r s2]. simpl in *. congruence.
+  Qed.
+
+  Theorem recorded_errors_are_the_unknown_predefs ds : s_errs (tbl ds) = unknown_predefs ds.
+  Proof.
+    unfold tbl, translate, unknown_predefs.
+    assert (H : forall s, s_errs (fold_left (tr_decl terminal_names predefs) ds s)
+                          = s_errs s ++ flat_map (fun d => match d with
+                                | DToken _ (S (S _)) v => match find (fun e => String.eqb (fst e) v) predefs with Some _ => [] | None => [v] end
+                                | _ => []
+                                end) ds).
+    { induction ds as [|d ds IH]; intros s; simpl; [rewrite app_nil_r; reflexivity|].
+      rewrite IH. destruct d as [n k v|a hs|A b]; simpl.
+      - destruct k as [|[|k]]; simpl; try reflexivity.
+        destruct (find _ predefs); simpl; [reflexivity | rewrite <- app_assoc; reflexivity].
+      - pose proof (tr_handles_errs hs s) as H. destruct (tr_handles terminal_names hs s) as [phs s1]. simpl in *. rewrite H. reflexivity.
+      - rewrite tr_rule_errs. reflexivity. }
+    apply (H st0).
+  Qed.
+
+  Theorem unknown_predef_reported_iff ds v :
+    In (InvalidPredef v) (final_diags (tbl ds)) <-> In v (unknown_predefs ds).
+  Proof.
+    rewrite <- recorded_errors_are_the_unknown_predefs. unfold final_diags.
+    assert (Hpre : In (InvalidPredef v) (map InvalidPredef (s_errs (tbl ds))) <-> In v (s_errs (tbl ds))).
+    { rewrite in_map_iff. split; [intros [x [Hx Hin]]; inversion Hx; subst; exact Hin | intros H; exists v; split; [reflexivity | exact H]]. }
+    assert (Htd : ~ In (InvalidPredef v) (table_diags (tbl ds))).
+    { unfold table_diags. intros Hin. apply in_app_or in Hin as [Hin|Hin].
+      - apply in_flat_map in Hin as [e [_ Hin]]. destruct (te_defs e) as [|x [|y t]]; simpl in Hin;
+          [destruct Hin as [Hin|[]]; discriminate | destruct Hin | destruct Hin as [Hin|[]]; discriminate].
+      - apply in_app_or in Hin as [Hin|Hin].
+        + apply in_flat_map in Hin as [[[a0 v0] r] [_ Hin]].
+          destruct (filter _ _) as [|[[a1 v1] r1] [|y t]]; simpl in Hin; try destruct Hin.
+          destruct (String.eqb a1 a0); [|destruct Hin]. destruct Hin as [Hin|[]]. discriminate.
+        + destruct (existsb _ _); [destruct Hin|]. destruct Hin as [Hin|[]]. discriminate. }
+    destruct (table_diags (tbl ds)) as [|x t] eqn:E.
+    - rewrite in_app_iff, Hpre. split; [|intros H; left; exact H]. intros [H|Hin]; [exact H|]. exfalso.
+      apply in_app_or in Hin as [Hin|Hin].
+      + apply in_flat_map in Hin as [A [_ Hin]]. destruct (existsb _ _); [destruct Hin|]. destruct Hin as [Hin|[]]. discriminate.
+      + destruct (levels_overlap _); [|destruct Hin]. destruct Hin as [Hin|[]]. discriminate.
+    - rewrite in_app_iff, Hpre. split; [|intros H; left; exact H]. intros [H|Hin]; [exact H | destruct (Htd Hin)].
+  Qed.
+End Diagnostics.
